@@ -279,6 +279,9 @@ class FortranAST:
                     inc.scope_objs = added_entities
 
     def resolve_links(self, obj_tree, link_version):
+        # Drop cached type lookups, the objects they point to may have been replaced
+        for var_obj in self.variable_list:
+            var_obj.type_obj = None
         for inherit_obj in self.inherit_objs:
             inherit_obj.resolve_inherit(obj_tree, inherit_version=link_version)
         for linkable_obj in self.linkable_objs:
